@@ -168,8 +168,11 @@ def Server.upload (s : Server) (ctr index sub : Nat) (complete : Bool) : Server 
       let first := match s.mode with
         | .segmented f _ => if n > 4 then min (min f s.normalRoom) n else min n s.normalRoom
         | _ => min n s.normalRoom
+      -- (the chosen segment sizes, like the chosen first part, apply to objects of more than 4 bytes only: for a
+      -- smaller object a never-expedited server sends what fits, as the simulated and the reference server do;
+      -- model corrected after a disagreement met with seed 3: 4-byte object, 16-byte mailbox, 1-byte segments)
       let sizes := match s.mode with
-        | .segmented _ sz => sz
+        | .segmented _ sz => if n > 4 then sz else []
         | _ => []
       let seg := if first < n then some { data := data.drop first, toggle := false, sizes := sizes } else none
       ({ s with counter := ctr, seg := seg }, normalResponse ctr index sub complete n (data.take first))
